@@ -52,8 +52,8 @@ class SingleFieldSubscriptionsRule(ValidationRule):
                 for definition in document.definitions
                 if isinstance(definition, FragmentDefinitionNode)
             }
-            grouped_field_set, _new_defer_usages, forbidden_directive_instances = (
-                collect_fields(
+            try:
+                collected_fields = collect_fields(
                     schema,
                     fragments,
                     variable_values,
@@ -62,6 +62,11 @@ class SingleFieldSubscriptionsRule(ValidationRule):
                     self.context.hide_suggestions,
                     True,
                 )
+            except GraphQLError:
+                # Invalid directive arguments are reported by the rules checking them.
+                return
+            grouped_field_set, _new_defer_usages, forbidden_directive_instances = (
+                collected_fields
             )
             if forbidden_directive_instances:
                 self.report_error(
